@@ -41,7 +41,7 @@ func main() {
 		return
 	}
 	run := core.Start("C07", "fault_enumeration", "CONSNET")
-	focus := map[string]bool{"C07": true, "C03": true, "C01": true, "C12": true}
+	focus := map[string]bool{"C07": true, "C03": true, "C01": true, "C12": true, "C04": true}
 	if run.ReplayPath != "" {
 		var sc consnet.Scenario
 		if err := run.ReplayCase(&sc); err != nil {
@@ -130,6 +130,27 @@ func main() {
 				}
 			}
 		}
+		// two crashes: the second one at a write of the node's life after the first restart
+		if bi == 0 || !run.Quick() {
+			n := 1
+			w := writes[bi][n]
+			k1step, k2s := 3, []int{4, 10, 16, 22, 28}
+			if !run.Quick() {
+				k1step = 1
+				k2s = nil
+				for k := 1; k <= 40; k += 2 {
+					k2s = append(k2s, k)
+				}
+			}
+			for k1 := 1; k1 <= w; k1 += k1step {
+				for _, k2 := range k2s {
+					sc := b.sc
+					sc.Rules = append(append([]consnet.Rule{}, b.sc.Rules...), consnet.Rule{Kind: "crash", Node: n, K: k1}, consnet.Rule{Kind: "crash2", Node: n, K: k2})
+					sc.Extra = b.name + "+second-crash"
+					scs = append(scs, &sc)
+				}
+			}
+		}
 		// WAL rotation at a record boundary, then crash points after it
 		rot := []int{3, 9}
 		if !run.Quick() {
@@ -158,6 +179,7 @@ func main() {
 	if !run.Quick() {
 		budget = 13 * time.Minute
 	}
+	scs = consnet.Interleave(scs)
 	sum := consnet.RunCampaign(run, scs, consnet.CampaignOpts{Focus: focus, DeathProp: "C07", Budget: budget, OnResult: func(sc *consnet.Scenario, r *consnet.Result) {
 		c, _ := strconv.Atoi(r.Extra["compared"])
 		u, _ := strconv.Atoi(r.Extra["uncompared"])
